@@ -279,6 +279,36 @@ pub fn storage_free_program(r: &mut Rng) -> Vec<u8> {
     assemble(&bs, shape)
 }
 
+/// a value grown to just below / at / above the configured size limit and written to a literal
+/// slot (and the same with a small limit on ordinary idiom programs): returns (config, program)
+pub fn near_limit_program(r: &mut Rng) -> (String, Vec<u8>) {
+    let limit = [1usize, 2, 3, 5, 8, 20, 50, 250][r.below(8)];
+    let cfg = format!("30000000,10,50,{limit},394,0");
+    if r.chance(1, 2) {
+        // ordinary storage idioms under that limit
+        let mut used = vec![];
+        let n = 1 + r.below(3);
+        let vars: Vec<Var> = (0..n).map(|_| random_var(r, &mut used)).collect();
+        let shape = r.below(2);
+        return (cfg, program(r, &vars, shape));
+    }
+    let mut a = vm::Asm::new(0);
+    let mut used = vec![];
+    for _ in 0..1 + r.below(3) {
+        // CALLVALUE followed by k NOTs has k + 1 nodes
+        let nodes = (limit + 2).saturating_sub(r.below(5)).max(1);
+        a.op(0x34);
+        for _ in 1..nodes {
+            a.op(0x19);
+        }
+        let slot = random_slot(r, &mut used);
+        a.push_word(&slot);
+        a.op(0x55);
+    }
+    a.op(0x00);
+    (cfg, a.bytes)
+}
+
 /// self-referential storage dataflow: a container element receives what was loaded from the
 /// container's own base slot (or the other way round), so the unified types are cyclic
 pub fn self_ref_program(r: &mut Rng) -> Vec<u8> {
